@@ -1,5 +1,5 @@
 """property id -> suites, evidence rule, trusted base additions"""
-from suites import props_tree
+from suites import props_tree, prims
 
 RULE_TREE = ("random operation histories (weighted words over fit / refine / recluster / set_merge / setters / "
              "delete_internal_nodes / reset / malformed fit; feature counts 1..24, 63, 64, 65, 100, 256; prototype+noise, "
@@ -7,9 +7,20 @@ RULE_TREE = ("random operation histories (weighted words over fit / refine / rec
              "Lean model, compared after every operation; non-trivial = distinct history whose final state has at least one "
              "multi-member cluster (and, for structure suites, a tree of height >= 1)")
 
+RULE_PRIM = ("real bblean.similarity / _py_similarity / pack-unpack functions vs the Lean model on the same inputs, compared as exact "
+             "rationals and bit strings: bounded-exhaustive small inputs + random inputs (feature counts 1..4096, byte counts "
+             "multiple / not multiple of 8, densities incl. empty and full rows, misaligned buffers, counts up to n*sum(k) < 2^63); "
+             "non-trivial = distinct input with n >= 2 and a set bit")
+RULE_MERGE = ("generated (old, nominee) summaries of consistent sums and counts (old sizes straddling 1, 255/256, 1000), all six "
+              "criteria x thresholds x tolerances, each call made twice, calls shuffled across instances; compared with the model's "
+              "accept; non-trivial = per-criterion min(#accepted, #rejected)")
+
 PROPS: dict = {
     "C01": {"suites": [props_tree.c01], "rule": RULE_TREE},
     "C02": {"suites": [props_tree.c02], "rule": RULE_TREE},
     "C03": {"suites": [props_tree.c03], "rule": RULE_TREE},
     "C09": {"suites": [props_tree.c09], "rule": RULE_TREE},
+    "C10": {"suites": [prims.suite_merge], "rule": RULE_MERGE},
+    "C11": {"suites": [prims.suite_isim], "rule": RULE_PRIM},
+    "C12": {"suites": [prims.suite_bits], "rule": RULE_PRIM},
 }
